@@ -263,6 +263,15 @@ static void string_faults(const char* text) {
   FAULT(s, dump_string, FC_FORMAT, "print_to", "too-few-arguments", print_to(s, 0, "abc %i def %s", $I(1)));
   FAULT(s, dump_string, FC_FORMAT, "print_to", "no-arguments", print_to(s, 0, "%$"));
   FAULT(s, dump_string, FC_FORMAT, "print_to", "too-few-arguments-at-end-position", print_to(s, (int)strlen(text), "x%iy%i", $I(1)));
+  /* the missing argument belongs to a specification with flags, width, precision or a length modifier */
+  static const char* SPECS[] = { "%li", "%lu", "%lld", "%hd", "%hhx", "%zu", "%jd", "%td", "%lf", "%5.2f", "%-8s", "%+08.3e", "%#lx", "%c", "%p", "% d" };
+  for (size_t k = 0; k < sizeof SPECS / sizeof SPECS[0]; k++) {
+    char f2[64], nm[48];
+    snprintf(f2, sizeof f2, "count = %%i, total = %s!", SPECS[k]);
+    snprintf(nm, sizeof nm, "too-few-arguments-for-%s", SPECS[k] + 1);
+    for (char* q = nm; *q; q++) { if (!((*q >= 'a' && *q <= 'z') || (*q >= 'A' && *q <= 'Z') || (*q >= '0' && *q <= '9') || *q == '-')) { *q = '_'; } }
+    FAULT(s, dump_string, FC_FORMAT, "print_to", nm, print_to_with(s, 0, f2, tuple($I(1))));
+  }
   /* usable */
   vh_eval();
   append(s, $S("!tail"));
